@@ -8,7 +8,7 @@
    Positions / velocities / depths are integers in units of 1/65536 (cell, m/s, m); snapshots taken between two
    module calls are compared exactly, values the spec recomputes from logged velocities within TOL quanta.
    Verdicts are total: a failing clause is printed, the spec re-synchronises on the observed state and goes on. *)
-EXTENDS Release, Tableau, TLC, Json, IOUtils
+EXTENDS Release, Tableau, FileName, TLC, Json, IOUtils
 Tr == ndJsonDeserialize(IOEnv.TRACE_FILE)
 VARIABLES l, tid, status, S, pc, step, parts, npid, born, vels, hist, closed, dead, catch
 vars == <<l, tid, status, S, pc, step, parts, npid, born, vels, hist, closed, dead, catch>>
@@ -32,6 +32,9 @@ Part(s, i) == [pid |-> s.pid[i], x |-> Get(s.x, i), y |-> Get(s.y, i), z |-> Get
 AllParts(s)   == [i \in 1..Len(s.pid) |-> Part(s, i)]
 AliveParts(s) == SelectSeq(AllParts(s), LAMBDA r : r.alive)
 Pids(P) == { P[i].pid : i \in 1..Len(P) }
+\* scalar forcing value held by the state for each living particle (empty when the run has no scalar forcing)
+AliveTemps(s) == LET idx == SelectSeq([i \in 1..Len(s.pid) |-> i], LAMBDA i : Get(s.alive, i) = TRUE)
+                 IN [k \in 1..Len(idx) |-> Get(s.temp, idx[k])]
 \* identity invariants evaluated on every state snapshot (C05) and "the dead stay dead" (C09)
 SnapInv(s) == <<Check("inv.arrays_equally_long", \A i \in 1..Len(s.lens) : s.lens[i] = Len(s.pid)),
                 Check("inv.pids_increasing", \A i \in 1..(Len(s.pid) - 1) : s.pid[i] < s.pid[i + 1]),
@@ -164,7 +167,7 @@ Output == /\ Is("output")
           /\ Mark(All(<<Check("output.pc", pc = "output"),
                         Check("output.step", Ev.step = step),
                         Check("output.snap", AliveParts(Ev.snap) = parts)>> \o SnapInv(Ev.snap)))
-          /\ hist' = IF Due THEN Append(hist, [step |-> step, recs |-> parts, npid |-> npid]) ELSE hist
+          /\ hist' = IF Due THEN Append(hist, [step |-> step, recs |-> parts, npid |-> npid, temp |-> AliveTemps(Ev.snap)]) ELSE hist
           /\ pc' = "move"
           /\ UNCHANGED <<tid, S, step, parts, npid, born, vels, closed, dead, catch>>
 
@@ -233,14 +236,23 @@ Concat(fs) == IF fs = <<>> THEN <<>> ELSE Head(fs).recs \o Concat(Tail(fs))
 RecOK(r, h) == /\ Len(r.pid) = Len(h.recs) /\ Len(r.x) = Len(r.pid) /\ Len(r.age) = Len(r.pid) /\ Len(r.farm) = Len(r.pid)
                /\ \A i \in 1..Len(r.pid) : /\ r.pid[i] = h.recs[i].pid /\ r.x[i] = h.recs[i].x /\ r.y[i] = h.recs[i].y
                                            /\ r.z[i] = h.recs[i].z /\ r.age[i] = h.recs[i].age /\ r.farm[i] = h.recs[i].farm
-NumberingOK(fs) == LET n == S.out.numrec  base == IF Warm THEN S.warmidx + 1 ELSE 0 IN
-   IF n = 0 THEN Len(fs) = 1 /\ fs[1].idx = (IF Warm THEN S.warmidx + 1 ELSE -1)
-   ELSE \A k \in 1..Len(fs) : fs[k].idx = base + k - 1
-\* documented numbering: <stem>_000.nc, <stem>_001.nc, ... (three digits, or the width the configured name started with)
-Dig(d) == CASE d = 0 -> "0" [] d = 1 -> "1" [] d = 2 -> "2" [] d = 3 -> "3" [] d = 4 -> "4" [] d = 5 -> "5" [] d = 6 -> "6" [] d = 7 -> "7" [] d = 8 -> "8" [] OTHER -> "9"
-Pad3(n) == <<Dig((n \div 100) % 10), Dig((n \div 10) % 10), Dig(n % 10)>>
-NamesOK(fs) == IF S.out.numrec = 0 /\ ~Warm THEN \A k \in 1..Len(fs) : fs[k].name = <<"o", "u", "t", ".", "n", "c">>
-               ELSE \A k \in 1..Len(fs) : fs[k].idx >= 0 => fs[k].name = <<"o", "u", "t", "_">> \o Pad3(fs[k].idx) \o <<".", "n", "c">>
+\* names and numbers as module FileName prescribes for the configured stem (a warm start is configured with the next name of the chain)
+Proto == S.out.proto
+\* scalar forcing in a record (C06: the value the state held; C19 / C03 / C02: valid at the record's time and place, i.e. the
+\* value of the particle's own cell in the latest frame at or before the record's step - harness/world.scal encodes
+\* frame, level and cell in the field value: 1000 f + 100 k + 10 j + i)
+LatestFrame(st) == LET ok == { n \in 1..Len(S.scal.frames) : S.scal.frames[n] <= st } IN
+                   IF ok = {} THEN -1 ELSE (CHOOSE n \in ok : \A m \in ok : S.scal.frames[m] <= S.scal.frames[n]) - 1
+CellOf(v) == { (v + (Q \div 2) - 1) \div Q, (v + (Q \div 2)) \div Q }         \* both neighbours on an exact tie
+ScalStateOK(r, h) == ~S.scal.has \/ (Len(r.temp) = Len(h.temp) /\ \A i \in 1..Len(r.temp) : r.temp[i] = h.temp[i])
+ScalValidOK(r, h) == ~S.scal.has \/
+   (Len(r.temp) = Len(r.pid) /\ \A i \in 1..Len(r.pid) :
+       \E k \in 0..(S.scal.N - 1), ci \in CellOf(r.x[i]), cj \in CellOf(r.y[i]) :
+          r.temp[i] = 1000 * LatestFrame(h.step) + 100 * k + 10 * cj + ci)
+NumberingOK(fs) == IF S.out.numrec = 0 THEN Len(fs) = 1 /\ fs[1].idx = NumberOf(Proto)
+                   ELSE \A k \in 1..Len(fs) : fs[k].idx = StartNo(Proto) + k - 1
+NamesOK(fs) == IF S.out.numrec = 0 THEN \A k \in 1..Len(fs) : fs[k].name = PlainName(Proto)
+               ELSE \A k \in 1..Len(fs) : fs[k].name = SplitName(Proto, k - 1)
 SizesOK(fs) == LET n == S.out.numrec IN
    IF hist = <<>> THEN \A k \in 1..Len(fs) : Len(fs[k].recs) = 0        \* (a warm start shorter than one output period)
    ELSE IF n = 0 THEN Len(fs) = 1
@@ -269,6 +281,8 @@ Files ==
                  Check("files.reference", \A k \in 1..Len(fs) : fs[k].ref = Ref(S.clock)),
                  Check("files.time", \A k \in 1..m : all[k].time = ClockTime(S.clock, hist[k].step)),
                  Check("files.records", \A k \in 1..m : RecOK(all[k], hist[k])),
+                 Check("files.scalar_is_state", \A k \in 1..m : ScalStateOK(all[k], hist[k])),
+                 Check("files.scalar_valid_at_record", \A k \in 1..m : ScalValidOK(all[k], hist[k])),
                  Check("files.pvars", S.out.pvars => PvarsOK(fs)),
                  Check("files.pid_sorted", \A k \in 1..Len(all) : \A i \in 1..(Len(all[k].pid) - 1) : all[k].pid[i] < all[k].pid[i + 1]),
                  Check("files.pid_ge_index", \A k \in 1..Len(all) : \A i \in 1..Len(all[k].pid) : all[k].pid[i] >= i - 1),
